@@ -49,7 +49,7 @@ def run(ck):
         ck.explore(P, ["--depth=3", "--ohash=2"], "d3-b1-hash2", budget=1, deadline_s=120, jobs=JOBS)
         ck.explore(P, ["--depth=2", "--ohash=3"], "d2-b1-hash4", budget=1, deadline_s=25, jobs=JOBS)
         ck.explore(P, ["--depth=2", "--ohash=0"], "d2-b1-hash-default", budget=1, deadline_s=25, jobs=JOBS)
-        ck.explore(A, ["--depth=2", "--ohash=2"], "d2-b1-hash2-asan", budget=1, deadline_s=50, jobs=JOBS)
+        ck.explore(A, ["--depth=2", "--ohash=2"], "d2-b1-hash2-asan", budget=1, deadline_s=70, jobs=JOBS)
     else:
         ck.explore(P, ["--depth=4", "--ohash=2"], "d4-b1-hash2", budget=1, deadline_s=1100, jobs=JOBS)
         ck.explore(P, ["--depth=2", "--ohash=2"], "d2-b2-hash2", budget=2, min_budget=2, deadline_s=300, jobs=JOBS)
